@@ -728,6 +728,17 @@ func (it *Interp) recordViolationTape(label, kind, msg string, tape []TapeEntry)
 }
 
 func (it *Interp) recordViolationKnown(label, kind, msg, known string, tape []TapeEntry) {
+	defer func() {
+		// "schedule:" assertions relate two executions under different scheduling choices (map iteration
+		// orders); a native run cannot be steered into them, the counterexample is reported as found
+		if strings.HasPrefix(label, "schedule:") {
+			for _, x := range it.jr.Violations {
+				if x.Label == label {
+					x.NoNativeReplay = true
+				}
+			}
+		}
+	}()
 	v := &Violation{Harness: it.jr.Harness, Label: label, Kind: kind, Msg: msg, Tape: tape, Known: known, Path: it.pathBools(), Case: it.caseN}
 	if known != "" {
 		if it.jr.KnownHits == nil {
